@@ -35,7 +35,7 @@ def bunds_on(fm):
 class Geometry:
     """Profile facts read once from the initialised model (and re-read by C12 to prove they do not move)."""
 
-    def __init__(self, model):
+    def __init__(self, model, spec=None):
         prof = model._param_struct.Soil.Profile
         self.dz = np.array(prof.dz, dtype=float, copy=True)
         self.ncomp = len(self.dz)
@@ -47,6 +47,15 @@ class Geometry:
         self.ksat = np.array(prof.Ksat, dtype=float, copy=True)
         self.zbot = np.cumsum(self.dz)
         self.zmid = self.zbot - self.dz / 2
+        # hydraulic limits of a custom soil come from the CONFIGURATION (reference layer map), not from the profile the model built
+        self.limits_from_spec = False
+        if spec is not None:
+            from ..refmodels import configured_limits
+
+            lim = configured_limits(spec.get("soil") or {})
+            if lim is not None and len(lim["th_s"]) == self.ncomp:
+                self.th_s, self.th_dry, self.th_fc, self.th_wp, self.ksat = lim["th_s"], lim["th_dry"], lim["th_fc"], lim["th_wp"], lim["ksat"]
+                self.limits_from_spec = True
 
 
 class C01Ledger(Monitor):
@@ -54,7 +63,7 @@ class C01Ledger(Monitor):
 
     def on_init(self, ctx):
         m = ctx.model
-        self.g = Geometry(m)
+        self.g = Geometry(m, ctx.spec)
         self.th_cfg = np.array(m._init_cond.th, dtype=float, copy=True)  # a COPY of the configured initial content
         self.irr_method = int(m._param_struct.IrrMngt.irrigation_method)
         self.off = bool(m._clock_struct.sim_off_season)
@@ -70,7 +79,7 @@ class C01Ledger(Monitor):
             th_prev, pond_prev, new_season = self.prev_end
             if new_season and not self.off:
                 ctx.hit("season_reset")
-                fm = ctx.model._param_struct.FieldMngt
+                fm = field_in_force(ctx, True)
                 pond_cfg = min(float(fm.bund_water), float(fm.z_bund)) if bunds_on(fm) else 0.0
                 if pre.th.shape != self.th_cfg.shape or pre.th.tobytes() != self.th_cfg.tobytes():
                     i = int(np.argmax(np.abs(pre.th - self.th_cfg))) if pre.th.shape == self.th_cfg.shape else -1
@@ -141,7 +150,7 @@ class C02Partition(Monitor):
     def on_init(self, ctx):
         m = ctx.model
         self.irr = m._param_struct.IrrMngt
-        self.g = Geometry(m)
+        self.g = Geometry(m, ctx.spec)
 
     def on_transition(self, ctx, pre, post):
         f = post.flux
@@ -177,7 +186,8 @@ class C02Partition(Monitor):
         self.zb_prev = zb
         # ... and only if that water was legally ponded under yesterday's struct (otherwise it is not a removal day but
         # ponding above the bund top, which no struct change explains)
-        legal_yesterday = zb_prev is None or pre.pond <= zb_prev + tol
+        # (on the first simulated day there is no yesterday: the initial pond must be legal under today's struct)
+        legal_yesterday = (pre.pond <= zb + tol) if zb_prev is None else (pre.pond <= zb_prev + tol)
         removal = pre.pond > zb and legal_yesterday
         if removal:
             ctx.hit("bund_removal_day")
@@ -213,9 +223,9 @@ class C03Bounds(Monitor):
 
     def on_init(self, ctx):
         m = ctx.model
-        self.g = Geometry(m)
+        self.g = Geometry(m, ctx.spec)
         ps = m._param_struct
-        self.any_bunds = bunds_on(ps.FieldMngt) or bunds_on(ps.FallowFieldMngt)
+        self.any_bunds = bunds_on(field_in_force(ctx, True)) or bunds_on(field_in_force(ctx, False))
         th0 = np.asarray(m._init_cond.th, dtype=float)
         # premise of the property: the configured initial water content lies between wilting point and saturation in every
         # compartment (a depth-interpolated specification can violate it on layered soils: its depth points take their value from
@@ -224,7 +234,12 @@ class C03Bounds(Monitor):
         if not self.premise:
             ctx.notes.append("premise not met: configured initial water content outside [wilting point, saturation]; scenario skipped")
             return
-        self.check_state(ctx, -1, th0, float(m._init_cond.surface_storage), None, None)
+        # the struct in force on the first day follows from the dates alone: in season iff the run starts on the planting day
+        from .. import spec as S
+        sd = S.parse_date(ctx.spec["start"])
+        pm, pdd = (int(x) for x in ctx.spec["crop"]["planting"].split("/"))
+        gs0 = (sd.month, sd.day) == (pm, pdd)
+        self.check_state(ctx, -1, th0, float(m._init_cond.surface_storage), field_in_force(ctx, gs0), None)
 
     def check_state(self, ctx, t, th, pond, fm, wr):
         g = self.g
@@ -277,7 +292,7 @@ class C04Flux(Monitor):
     def on_init(self, ctx):
         m = ctx.model
         self.method = int(m._param_struct.IrrMngt.irrigation_method)
-        self.g = Geometry(m)
+        self.g = Geometry(m, ctx.spec)
 
     def on_transition(self, ctx, pre, post):
         f = post.flux
